@@ -210,13 +210,32 @@ def _find_shebang(source):
     if isinstance(source, bytes):
         shebang = re.match(br'^#![^\r\n]*', source)
         if shebang:
-            return shebang.group().decode()
+            return shebang.group().decode(_source_encoding(source))
     else:
         shebang = re.match(r'^#![^\r\n]*', source)
         if shebang:
             return shebang.group()
 
     return None
+
+
+def _source_encoding(source):
+    """
+    The encoding the interpreter uses to decode source bytes
+
+    This honours a PEP 263 coding declaration on one of the first two lines, like the parser does.
+    """
+
+    for line in source.splitlines()[:2]:
+        declaration = re.match(br'^[ \t\f]*#.*?coding[:=][ \t]*([-\w.]+)', line)
+        if declaration:
+            return declaration.group(1).decode('ascii')
+
+        if not re.match(br'^[ \t\f]*(?:#.*)?$', line):
+            # A declaration on the second line only counts if the first line is blank or a comment
+            break
+
+    return 'utf-8'
 
 
 def unparse(module):
